@@ -1,6 +1,8 @@
 //! d_node: transplanted ant-node/src/put_validation.rs (+ error.rs), ant-evm/src/data_payments.rs and
 //! ant-protocol/src/storage/scratchpad.rs executed under symrt.
 #![allow(dead_code, unused_imports, unused_variables, unused_mut, clippy::all)]
+// path-qualified uses (`tracing::warn!(..)`) in transplanted code resolve to no-op macros
+extern crate noop_tracing as tracing;
 
 macro_rules! trace { ($($t:tt)*) => { if false { let _ = format!($($t)*); } } }
 macro_rules! debug { ($($t:tt)*) => { if false { let _ = format!($($t)*); } } }
